@@ -131,6 +131,10 @@ def run_check(prop, tier, seed):
                 failures = f2
                 break
         ev_extra['escalated_search'] = escalations
+    try:
+        ev_extra['input_distribution'] = ctx.input_distribution()
+    except Exception:
+        pass
     # ---- known findings
     known = [k for k in load_known() if k['property'] == prop and k.get('status', 'open') == 'open']
     known_lines, unlisted = [], []
